@@ -8,6 +8,7 @@ from __future__ import annotations
 import ast
 from typing import Any, Dict, List, Optional, Set, Tuple
 
+from ..flow import flow_of
 from ..cfg import cfg_of, CFG
 from ..fsmodel import StoreModel, Effect, show, flatten, mentions_sym, mentions_attr, unique_sources, strip_unique, contains, expand_attrs
 from ..model import Func, Class, AnchorError, unparse, stmt_key, f_cls
@@ -815,6 +816,21 @@ def record_rewritten_unless_current(ctx: Ctx, rule: str) -> int:
                 sides = [b.ast.left, b.ast.comparators[0]]
                 if any(isinstance(x, ast.Name) and x.id == keyv for x in sides):
                     if (isinstance(b.ast.ops[0], ast.Eq) and b.label == "T") or (isinstance(b.ast.ops[0], ast.NotEq) and b.label == "F"):
+                        eq_nodes.append(b)
+        # the comparison may be kept in a boolean local first: `needs_update = k is None or k != key` ... `if not needs_update: continue`
+        fl_ = flow_of(prog, f)
+
+        def _cmp_key(a: ast.AST, op) -> bool:
+            return isinstance(a, ast.Compare) and len(a.ops) == 1 and isinstance(a.ops[0], op) and any(
+                isinstance(x, ast.Name) and x.id == keyv for x in [a.left, a.comparators[0]])
+        for b in cfg.nodes:
+            if b.kind == "branch" and isinstance(b.ast, ast.Name):
+                ds = fl_.defs_of_use(b.ast)
+                if len(ds) == 1 and isinstance(ds[0].value, ast.BoolOp):
+                    v_ = ds[0].value
+                    if isinstance(v_.op, ast.Or) and b.label == "F" and any(_cmp_key(a, ast.NotEq) for a in v_.values):
+                        eq_nodes.append(b)
+                    if isinstance(v_.op, ast.And) and b.label == "T" and any(_cmp_key(a, ast.Eq) for a in v_.values):
                         eq_nodes.append(b)
         tb = [x for x in cfg.nodes if x.kind == "branch" and x.ast is loop and x.label == "T"]
         heads = [x for x in cfg.nodes if x.kind == "loop" and x.ast is loop]
